@@ -251,6 +251,32 @@ func (x *FnExec) bitOpInt(op token.Token, a, b *Term, bt *types.Basic) *Term {
 			return x.tc.BigInt(new(big.Int).AndNot(av, bv))
 		}
 	}
+	// single-bit constant operand: exact arithmetic characterisation
+	if ok1 && !ok2 && (op == token.OR || op == token.XOR) {
+		a, b, av, bv, ok1, ok2 = b, a, bv, av, ok2, ok1
+	}
+	if ok2 && bv.Sign() > 0 && new(big.Int).And(bv, new(big.Int).Sub(bv, big.NewInt(1))).Sign() == 0 {
+		tc := x.tc
+		k := bv.BitLen() - 1
+		p := tc.BigInt(pow2(k))
+		// for signed a the two's complement bit k of a equals bit k of (a mod 2^width); floor div/mod give it directly
+		bitSet := tc.Eq(tc.Mod(tc.Div(a, p), tc.Int(2)), tc.Int(1))
+		w := intWidth(bt)
+		top := k == w-1 && !isUnsigned(bt)
+		plus, minus := tc.Add(a, p), tc.Sub(a, p)
+		if top {
+			// setting the sign bit of a signed value subtracts 2^k, clearing it adds 2^k
+			plus, minus = tc.Sub(a, p), tc.Add(a, p)
+		}
+		switch op {
+		case token.OR:
+			return tc.Ite(bitSet, a, plus)
+		case token.XOR:
+			return tc.Ite(bitSet, minus, plus)
+		case token.AND_NOT:
+			return tc.Ite(bitSet, minus, a)
+		}
+	}
 	if op == token.AND_NOT && ok2 && bv.Sign() >= 0 {
 		// a &^ mask(k) = a - a mod 2^k
 		if k, ok := isMask(bv); ok {
